@@ -397,7 +397,14 @@ def fix_token(ctx):
     return " fx=" + ",".join(flags) if flags else ""
 
 
+def witness_cases(prop):
+    """the witness line of every known finding of the property: exercised on every run, whatever the generators draw"""
+    return [Case(k["witness"], ("witness", k["key"])) for k in vlib.load_known()
+            if k.get("property") == prop and k.get("status") == "known" and k.get("witness", "").startswith(("pkt ", "addr "))]
+
+
 def with_fix(ctx, cases):
+    cases = witness_cases(ctx.prop) + list(cases)
     tok = fix_token(ctx)
     if tok:
         for c in cases:
